@@ -6,7 +6,7 @@ Import ListNotations.
 From IT Require Import Text.Atp Text.AtpThm Text.Nested Text.NestedThm Text.Assemble.
 
 (* ---- assembly: for every file content and every located attribute / impl end ---- *)
-(* everything outside the attribute range (the attribute and the one byte after it) and outside the inserted block
+(* everything outside the attribute (exactly its bytes: |old| = |attr|) and outside the inserted block
    is preserved in order; the block starts exactly where the annotated impl ends; the attribute is deleted
    (edit(file)) or replaced by the result of the marker surgery, which is a subsequence of it *)
 Theorem C16_assembly_frame : forall src item_end a_idx a_str remove obj init block out,
@@ -14,7 +14,7 @@ Theorem C16_assembly_frame : forall src item_end a_idx a_str remove obj init blo
   exists A old B new sfx,
     src = A ++ old ++ B ++ sfx /\
     out = A ++ new ++ B ++ inserted obj init block ++ sfx /\
-    List.length A = a_idx /\ List.length old = List.length a_str + 1 /\
+    List.length A = a_idx /\ List.length old = List.length a_str /\
     List.length (A ++ old ++ B) = item_end /\
     (remove = true -> new = []) /\ (remove = false -> subseq new old /\ edit_remove a_str old = Some new).
 Proof. exact assembly_frame. Qed.
@@ -24,7 +24,8 @@ Proof. exact assembly_frame. Qed.
 Theorem C16_parse_args_marks : forall s l, parse_args s = Some l -> Forall (ok_arg s) l.
 Proof. exact parse_args_marks. Qed.
 
-(* frame: every deleted byte range is `file ... (`, one `)`, or one parenthesised group `( ... )` *)
+(* frame: every deleted byte range is `file ... (`, one `)` together with the trailing comma of its group, or one
+   parenthesised group `( ... )` *)
 Theorem C16_surgery_frame : forall s rs, file_ranges s = Some rs -> Forall (range_shape s) rs.
 Proof. exact surgery_frame. Qed.
 
@@ -46,19 +47,17 @@ Proof. exact atp_blanking_only. Qed.
 Theorem C16_atp_offsets_preserved : forall ls cs, parse_lines None ls = inl cs -> forall i, line_offset cs i = line_offset ls i.
 Proof. exact atp_offsets_preserved. Qed.
 
-(* full-strength statement (FALSE, F8): forall line, exists fuel o' out, parse_loop fuel None line [] = Done o' out.
-   Refuted: the scanner never returns on a line holding the char literal ' ' (or ','). *)
-Theorem C16_atp_terminates_refuted : exists line, forall fuel, parse_loop fuel None line [] = OutOfFuel.
-Proof. exists hang_line. exact atp_terminates_refuted. Qed.
+(* termination, full strength (holds since the repair of the lifetime block): every line, from every carried-over
+   state, is scanned within the model's fuel 2*|line|+4; a whole text is always scanned *)
+Theorem C16_atp_terminates : forall o line, exists o' out, parse_line o line = Done o' out.
+Proof. exact atp_terminates. Qed.
 
-Theorem C16_atp_terminates_refuted_comma : exists line, forall fuel, parse_loop fuel None line [] = OutOfFuel.
-Proof. exists hang_line2. exact atp_terminates_refuted_comma. Qed.
+Theorem C16_atp_lines_total : forall ls o, exists cs, parse_lines o ls = inl cs.
+Proof. exact atp_lines_total. Qed.
 
-(* partial termination: a line without slash, apostrophe and double quote is returned verbatim in one step (state None).
-   Full-strength guarded statement (every line outside the refuted class terminates within 2*|line|+4 steps) is NOT proved;
-   it is exercised by the scanner tie only. *)
-Theorem C16_atp_plain_line_verbatim_partial : forall line, plain_line line = true -> parse_line None line = Done None line.
-Proof. exact atp_plain_line_verbatim_partial. Qed.
+(* a line without slash, apostrophe and double quote is returned verbatim *)
+Theorem C16_atp_plain_line_verbatim : forall line, plain_line line = true -> parse_line None line = Done None line.
+Proof. exact atp_plain_line_verbatim. Qed.
 
 (* full-strength statement (FALSE, F8): text inside a block comment is never visible to the item search.
    Refuted: the hash sign at offset 9 of AtpThm.nested_line (an attribute inside an outer block comment, after an inner
@@ -73,7 +72,7 @@ Print Assumptions C16_surgery_subseq.
 Print Assumptions C16_surgery_inactive_noop.
 Print Assumptions C16_atp_blanking_only.
 Print Assumptions C16_atp_offsets_preserved.
-Print Assumptions C16_atp_terminates_refuted.
-Print Assumptions C16_atp_terminates_refuted_comma.
-Print Assumptions C16_atp_plain_line_verbatim_partial.
+Print Assumptions C16_atp_terminates.
+Print Assumptions C16_atp_lines_total.
+Print Assumptions C16_atp_plain_line_verbatim.
 Print Assumptions C16_atp_nested_comment_refuted.
